@@ -226,7 +226,26 @@ def takagi_family(ctx, n):
             s = np.zeros(d)
         A = W0 @ np.diag(s) @ W0.T
         A = (A + A.T) / 2
-        desc = {"d": d, "singular_values": s.tolist(), "A": str(np.round(A, 8).tolist())}
+        kind = "complex"
+        u = rng.random()
+        if u < 0.2 and d >= 2:
+            # REAL dtype, low rank (kernel of dimension >= 2 when d >= 3), signed eigenvalues
+            kind = "real-lowrank"
+            k = int(rng.integers(1, max(2, d - 1)))
+            B = rng.normal(size=(d, k))
+            A = B @ np.diag(rng.choice([-1.0, 1.0], size=k) * rng.uniform(0.3, 2.0, size=k)) @ B.T
+            A = (A + A.T) / 2
+            s = np.linalg.svd(A, compute_uv=False)
+        elif u < 0.4 and d >= 2:
+            # adjacency matrix of a graph (int or float dtype): complete multipartite graphs have large kernels
+            kind = "adjacency"
+            part = rng.integers(0, int(rng.integers(2, 4)), size=d)
+            A = (part[:, None] != part[None, :]).astype(int if rng.random() < 0.5 else float)
+            if rng.random() < 0.3:
+                i, j = rng.choice(d, size=2, replace=False)
+                A[i, j] = A[j, i] = 1 - A[i, j]
+            s = np.linalg.svd(A.astype(float), compute_uv=False)
+        desc = {"d": d, "kind": kind, "dtype": str(A.dtype), "singular_values": np.asarray(s).tolist(), "A": str(np.round(A, 8).tolist())}
         conn = recorder()
         ctx.count(("takagi", it), nontrivial=d >= 2 and len(set(np.round(s, 9))) < d)
         try:
@@ -401,6 +420,12 @@ def run(ctx):
                        "re-checked numerically on every recorded intermediate",
                        "floating-point accuracy of the nulling (np.isclose branch, arctan/angle) is compared with tolerance 1e-8, not proved"]
     ctx.prove("PqVerif.Props.C15", THEOREMS, FILES)
+    import subprocess, glob, sys, os
+    for f in sorted(glob.glob(os.path.join(os.path.dirname(__file__), "..", "..", "..", "corpus", "repro", "c15_*.py"))):
+        p = subprocess.run([sys.executable, f], capture_output=True, text=True, cwd=os.environ.get("PQ_REPO", "/repo"))
+        ctx.count("repro:" + os.path.basename(f), True)
+        if p.returncode != 0:
+            ctx.fail("repro:" + os.path.basename(f), "pinned regression fails: " + p.stdout[-300:], {"script": f})
     m1 = schedule_correspondence(ctx)
     m2 = commute_correspondence(ctx, 40 if quick else 600)
     fails = clements_family(ctx, n) + takagi_family(ctx, n) + williamson_family(ctx, n) + euler_family(ctx, n) + graph_family(ctx, 25 if quick else 500)
